@@ -739,3 +739,44 @@ def r03j(ctx):
         ctx.ok(cid, *ok)
     else:
         ctx.bad(cid, c.module.loc(fn), "the join's legality test walks the predicate without refusing nodes that are not Elemwise (only a reduction that IS the right operand of the top comparison is refused): m[m.a > m.a.mean() * 1.0], m[m.a - m.a.mean() > 0], m[m.a.cumsum() > 60] are pushed into one input of the join, where the reduction / cumulative value is taken over other rows")
+
+
+# ---------------------------------------------------------------------------------------------
+# R03k
+# ---------------------------------------------------------------------------------------------
+
+R03K_EXCEPTIONS = {
+    "_expr.Elemwise._simplify_up": "Series -> one-column frame with the SAME labels and divisions (to_frame): a term that still reads the operator's output stays valid, it is only not moved",
+}
+
+
+@rule(
+    "R03k",
+    ["C03", "C01"],
+    """A HAND-TRANSLATED PREDICATE STILL GETS THE GENERAL SUBSTITUTION: `_filter_simplification(parent, predicate)` with an explicit
+    predicate skips the default `parent.predicate.substitute(self, self.frame)`. A rule that translates special columns by hand (the
+    former index / the values of a Series under reset_index) and passes the result must itself finish with
+    `.substitute(self, self.frame)` - otherwise every OTHER term of the predicate keeps reading the operator's output, whose labels and
+    divisions differ from the filtered input: x = df.reset_index(); x[(x['index'] > 11) & (x.a > 2)] failed / selected other rows.""",
+)
+def r03k(ctx):
+    model = ctx.model
+    from sa.rules.r04 import _def_chain
+
+    n = 0
+    for c, m in own_methods(model, "_simplify_up"):
+        fn = m.node
+        defs = flow.Defs(fn)
+        for call in (x for x in ast.walk(fn) if isinstance(x, ast.Call) and is_self_attr(x.func, "_filter_simplification") and (len(x.args) >= 2 or any(kw.arg == "predicate" for kw in x.keywords))):
+            arg = call.args[1] if len(call.args) >= 2 else next(kw.value for kw in call.keywords if kw.arg == "predicate")
+            n += 1
+            cid = f"{qual(c, fn)}:explicit-predicate"
+            chain = [arg] + (_def_chain(defs, arg.id, call) if isinstance(arg, ast.Name) else [])
+            general = any(pfind("V_p.substitute(self, self.frame)", v) for v in chain)
+            if general:
+                ctx.ok(cid, c.module.loc(call), "the translated predicate ends with .substitute(self, self.frame)")
+            elif qual(c, fn) in R03K_EXCEPTIONS:
+                ctx.exempt(cid, c.module.loc(call), R03K_EXCEPTIONS[qual(c, fn)])
+            else:
+                ctx.bad(cid, c.module.loc(call), f"`{unparse(call)}` passes a hand-translated predicate that never gets the general `.substitute(self, self.frame)`: every term other than the translated column keeps reading {c.name}'s output (other labels / divisions than the filtered input) - assertion error or, with unknown divisions, other rows")
+    ctx.floor("explicit-predicate filter simplifications", n, 2)
